@@ -121,3 +121,53 @@ func HC06_structure() {
 		rt.Assert("C06.indices-unchanged-when-weights-scaled-by-power-of-two", e1.AscendingIndex == e3.AscendingIndex && e1.DescendingIndex == e3.DescendingIndex)
 	}
 }
+
+//verif:bounds C06 HC06_credibility_monotone: the mechanism behind the dominance clause, at K=3: for alternatives x, y with x at least as good as y on every criterion and any third alternative z, the real electreIIICredibility gives sigma(x,z) >= sigma(y,z) and sigma(z,x) <= sigma(z,y); symbolic values, quick tier: the antitone half with q+p+v on every criterion and weights (1,3,4); thorough: both halves, each criterion without thresholds or with q+p+v, weights from {(1,3,4),(2,1,1)}
+//verif:harness HC06_credibility_monotone mode=REAL reach=veto-active ob_timeout_ms=120000 budget_thorough=120m
+func HC06_credibility_monotone() {
+	K := 3
+	var crit model.Criteria
+	if rt.Thorough() {
+		crit = vh.Criteria(K, "")
+	} else {
+		// quick tier: only the first criterion's type is a choice
+		crit = append(vh.Criteria(1, ""), model.Criterion{Id: "c2", Type: model.Cost}, model.Criterion{Id: "c3", Type: model.Gain})
+	}
+	alts := vh.Alternatives("", []string{"x", "y", "z"}, crit)
+	x, y, z := &alts[0], &alts[1], &alts[2]
+	for ci := range crit {
+		c := crit[ci]
+		rt.Assume(vh.Signed(&c, x.Criteria[c.Id]) >= vh.Signed(&c, y.Criteria[c.Id]))
+	}
+	ws := []float64{1, 3, 4}
+	if rt.Thorough() {
+		ws = [][]float64{{1, 3, 4}, {2, 1, 1}}[rt.IntRange("weights", 0, 1)]
+	}
+	ec := ElectreCriteria{}
+	for i, c := range crit {
+		e := ElectreCriterion{K: ws[i]}
+		shape := "qpv"
+		if rt.Thorough() {
+			shape = rt.OneOf("thresholds."+c.Id, "none", "qpv")
+		}
+		if shape == "qpv" {
+			e.Q = utils.LinearFunctionParameters{B: 0.5}
+			e.P = utils.LinearFunctionParameters{B: 1.5}
+			e.V = utils.LinearFunctionParameters{B: []float64{7, 9, 5}[i]}
+		}
+		ec[c.Id] = e
+	}
+	// quick tier: the antitone half (two credibility evaluations); thorough: both halves
+	szx := electreIIICredibility(z, x, &crit, &ec).D
+	szy := electreIIICredibility(z, y, &crit, &ec).D
+	rt.Assert("C06.credibility-antitone-in-the-outranked-alternative", szx <= szy)
+	sxz := szx
+	if rt.Thorough() {
+		sxz = electreIIICredibility(x, z, &crit, &ec).D
+		syz := electreIIICredibility(y, z, &crit, &ec).D
+		rt.Assert("C06.credibility-monotone-in-the-outranking-alternative", sxz >= syz)
+	}
+	if rt.Branch(szy < electreIIICredibility(z, y, &crit, &ec).C) {
+		rt.Reach("veto-active")
+	}
+}
